@@ -254,6 +254,264 @@ func runC20(c *core.Ctx) {
 		}
 	}
 
+	// ---------- closurestate ----------
+	c.Rule("C20.sharedslice", "what a shared object hands out of its own storage is not written: a slice that a method of a library type returns straight from a field of its receiver (Selector.Interests, TypeStruct.Fields, TypeUnion.Members, Path.Segments ...) is, in the caller, never the target of an element store, of sort.* or copy, nor handed to a module function that writes through that parameter - a compiled selector and a type system are shared between concurrent walks and bindings", 20)
+	{
+		// getters: methods that return a slice field of their receiver as it is
+		getters := map[*ssa.Function]bool{}
+		for _, fn := range p.ModFns {
+			pk := core.FuncPkg(fn)
+			if pk == nil || !libraryPkg(core.RelPkg(pk.Path())) || len(fn.Blocks) == 0 || fn.Synthetic != "" || fn.Signature.Recv() == nil {
+				continue
+			}
+			res := fn.Signature.Results()
+			if res.Len() != 1 {
+				continue
+			}
+			if _, isSlice := res.At(0).Type().Underlying().(*types.Slice); !isSlice {
+				continue
+			}
+			recv := fn.Params[0]
+			isRecv := func(v ssa.Value) bool {
+				v = classifyForParam(v)
+				if v == ssa.Value(recv) {
+					return true
+				}
+				// a value receiver spilled into a local
+				if al, ok := v.(*ssa.Alloc); ok {
+					for _, ref := range *al.Referrers() {
+						if st, ok := ref.(*ssa.Store); ok && st.Addr == ssa.Value(al) && st.Val == ssa.Value(recv) {
+							return true
+						}
+					}
+				}
+				return false
+			}
+			for _, ret := range core.Returns(fn) {
+				for _, rv := range core.ResultValues(ret, 0) {
+					switch x := core.Strip(rv).(type) {
+					case *ssa.UnOp:
+						if fa, ok := x.X.(*ssa.FieldAddr); ok && x.Op == token.MUL && isRecv(fa.X) {
+							getters[fn] = true
+						}
+					case *ssa.Field:
+						if isRecv(x.X) {
+							getters[fn] = true
+						}
+					}
+				}
+			}
+		}
+		isGetterCall := func(ci ssa.CallInstruction) bool {
+			cc := ci.Common()
+			if cal := cc.StaticCallee(); cal != nil {
+				return getters[cal]
+			}
+			if cc.IsInvoke() {
+				it, _ := cc.Value.Type().Underlying().(*types.Interface)
+				for g := range getters {
+					if g.Name() != cc.Method.Name() || it == nil {
+						continue
+					}
+					rt := g.Signature.Recv().Type()
+					if types.Implements(rt, it) || types.Implements(types.NewPointer(rt), it) {
+						return true
+					}
+				}
+			}
+			return false
+		}
+		wtp := writesThroughParam(p)
+		nsites := 0
+		for _, fn := range p.ModFns {
+			pk := core.FuncPkg(fn)
+			if pk == nil || !libraryPkg(core.RelPkg(pk.Path())) || len(fn.Blocks) == 0 || fn.Synthetic != "" {
+				continue
+			}
+			var handed []*ssa.Call
+			for _, ci := range core.Calls(fn) {
+				if cv := core.CallValue(ci); cv != nil && isGetterCall(ci) {
+					handed = append(handed, cv)
+				}
+			}
+			if len(handed) == 0 {
+				continue
+			}
+			from := func(v ssa.Value) *ssa.Call {
+				sl := core.BackSlice(v, core.SliceOpts{Local: true, Stores: true})
+				for _, h := range handed {
+					if sl[h] {
+						return h
+					}
+				}
+				return nil
+			}
+			for i, h := range handed {
+				_ = h
+				nsites++
+				_ = i
+			}
+			bad := map[*ssa.Call]string{}
+			badPos := map[*ssa.Call]token.Pos{}
+			core.Instrs(fn, func(in ssa.Instruction) {
+				switch x := in.(type) {
+				case *ssa.Store:
+					a := x.Addr
+					if fa, ok := a.(*ssa.FieldAddr); ok {
+						a = fa.X
+					}
+					if ia, ok := a.(*ssa.IndexAddr); ok {
+						if _, isSlice := ia.X.Type().Underlying().(*types.Slice); isSlice {
+							if h := from(ia.X); h != nil {
+								bad[h], badPos[h] = "an element of it is overwritten", x.Pos()
+							}
+						}
+					}
+				case ssa.CallInstruction:
+					cc := x.Common()
+					if bi, ok := cc.Value.(*ssa.Builtin); ok {
+						if bi.Name() == "copy" {
+							if h := from(cc.Args[0]); h != nil {
+								bad[h], badPos[h] = "it is the destination of copy", x.Pos()
+							}
+						}
+						return
+					}
+					if o := core.CalleeObj(x); o != nil && o.Pkg() != nil && (o.Pkg().Path() == "sort" || o.Pkg().Path() == "slices") {
+						switch o.Name() {
+						case "Slice", "SliceStable", "Sort", "Stable", "Strings", "Ints", "SortFunc", "SortStableFunc", "Reverse":
+							if len(cc.Args) > 0 {
+								if h := from(cc.Args[0]); h != nil {
+									bad[h], badPos[h] = "it is sorted in place by "+o.Pkg().Path()+"."+o.Name(), x.Pos()
+								}
+							}
+						}
+						return
+					}
+					if cal := cc.StaticCallee(); cal != nil && wtp[cal] != nil {
+						for j, a := range cc.Args {
+							if !wtp[cal][j] {
+								continue
+							}
+							if _, isSlice := a.Type().Underlying().(*types.Slice); !isSlice {
+								continue
+							}
+							if h := from(a); h != nil {
+								bad[h], badPos[h] = "it is handed to "+cal.Name()+", which writes through that parameter", x.Pos()
+							}
+						}
+					}
+				}
+			})
+			for i, h := range handed {
+				o := core.CalleeObj(h)
+				name := "?"
+				if o != nil {
+					name = o.Name()
+				}
+				pos := h.Pos()
+				if bp, ok := badPos[h]; ok {
+					pos = bp
+				}
+				c.Check(bad[h] == "", fmt.Sprintf("%s#handed-out-%s/%d", core.FuncKey(fn), name, i+1), p.Pos(pos), "read only", "the slice "+name+"() hands out is the object's own storage, and "+bad[h]+": every other user of that object (a concurrent walk over the same compiled selector, another binding of the same type) sees the change, unsynchronised")
+			}
+		}
+		_ = nsites
+	}
+
+	c.Rule("C20.closurestate", "a closure that outlives the call that made it keeps no scratch state: in library packages, a function literal that is installed in a field of a longer-lived object (an opener or chooser of a link system, a hook of a configuration) never stores to - nor calls a method that is not known to be read-only on - a local variable of the function that created it which it captured by reference (a reader or buffer declared next to the closure and reset on every call): every invocation, from whatever goroutine, would work on that one object", 0)
+	for _, fn := range p.ModFns {
+		pk := core.FuncPkg(fn)
+		if pk == nil || !libraryPkg(core.RelPkg(pk.Path())) || len(fn.Blocks) == 0 || fn.Parent() == nil {
+			continue
+		}
+		par := fn.Parent()
+		// does the closure escape its creator?
+		escapes := false
+		core.Instrs(par, func(in ssa.Instruction) {
+			mc, ok := in.(*ssa.MakeClosure)
+			if !ok || mc.Fn != ssa.Value(fn) || mc.Referrers() == nil {
+				return
+			}
+			// installed in a field of a longer-lived object (a chooser / opener of a LinkSystem, a hook of a Config): such a
+			// closure serves every later operation. A closure handed back to the caller as the handle of ONE operation
+			// (a write committer) may keep that operation's state.
+			var flows func(v ssa.Value, depth int)
+			flows = func(v ssa.Value, depth int) {
+				if depth > 3 || v.Referrers() == nil {
+					return
+				}
+				for _, ref := range *v.Referrers() {
+					switch x := ref.(type) {
+					case *ssa.Store:
+						if _, isField := x.Addr.(*ssa.FieldAddr); isField && x.Val == v {
+							escapes = true
+						}
+					case *ssa.ChangeType:
+						flows(x, depth+1)
+					case *ssa.MakeInterface:
+						flows(x, depth+1)
+					}
+				}
+			}
+			flows(mc, 0)
+		})
+		if !escapes {
+			continue
+		}
+		// captured locals of the creator (by reference: the free variable is the address of the creator's Alloc)
+		isCapturedLocal := func(v ssa.Value) *ssa.Alloc {
+			fv, ok := v.(*ssa.FreeVar)
+			if !ok {
+				return nil
+			}
+			al := boundAlloc(fv)
+			if al == nil || al.Parent() != par {
+				return nil
+			}
+			// a spilled parameter of the creator is the caller's value, not scratch state
+			for _, ref := range *al.Referrers() {
+				if st, ok := ref.(*ssa.Store); ok && st.Addr == ssa.Value(al) {
+					if _, isPrm := st.Val.(*ssa.Parameter); isPrm {
+						return nil
+					}
+				}
+			}
+			// variables of pointer, interface, map, chan or func type hold references to objects made elsewhere
+			switch al.Type().(*types.Pointer).Elem().Underlying().(type) {
+			case *types.Pointer, *types.Interface, *types.Map, *types.Chan, *types.Signature:
+				return nil
+			}
+			return al
+		}
+		n := 0
+		core.Instrs(fn, func(in ssa.Instruction) {
+			switch x := in.(type) {
+			case *ssa.Store:
+				root, _ := rootOfAddr(x.Addr)
+				if al := isCapturedLocal(root); al != nil {
+					n++
+					c.Fail(fmt.Sprintf("%s#writes-captured-local%d", core.FuncKey(fn), n), p.Pos(x.Pos()), "the closure stores into "+al.Comment+", a local variable of the function that created it: every invocation of the closure (it is kept and may run from several goroutines, or re-entrantly) works on that one object")
+				}
+			case ssa.CallInstruction:
+				if len(x.Common().Args) == 0 || x.Common().IsInvoke() {
+					return
+				}
+				o := core.CalleeObj(x)
+				if o == nil || o.Type().(*types.Signature).Recv() == nil || externalReadOnly[o.Name()] {
+					return
+				}
+				if _, isPtrRecv := o.Type().(*types.Signature).Recv().Type().(*types.Pointer); !isPtrRecv {
+					return
+				}
+				if al := isCapturedLocal(x.Common().Args[0]); al != nil {
+					n++
+					c.Fail(fmt.Sprintf("%s#writes-captured-local%d", core.FuncKey(fn), n), p.Pos(x.Pos()), "the closure calls "+o.Name()+" on "+al.Comment+", a local variable of the function that created it, through a pointer receiver: every invocation of the closure (it is kept and may run from several goroutines, or overlapping) works on that one object - overlapping loads read each other's data")
+				}
+			}
+		})
+	}
+
 	// ---------- readonly ----------
 	c.Rule("C20.readonly", "no function reachable (CHA, library packages) from a read-only entry point performs a non-fresh write to a field of a shared-by-construction type; a write through a parameter counts as fresh only if every call site passes a fresh object", 12)
 	shared := sharedTypes(p)
